@@ -19,7 +19,7 @@ Not decided: median within [min, max] (numeric property of the aggregation).
 import re
 
 from facts import short_name
-from kinds import (comparisons, bool_payload_edges, k1_callers, on_all_success_paths, error_cut,
+from kinds import (rel, comparisons, bool_payload_edges, k1_callers, on_all_success_paths, error_cut,
                    div_before_mul, arith_sites, k2_site_guarded)
 
 CRATES = ["astria_sequencer.lib", "astria_core.lib"]
@@ -57,21 +57,18 @@ def loop_heads(body):
 
 def o1(prog, rep):
     body = prog.main_body(V + "validate_vote_extensions")
-    ge = [c for c in comparisons(body) if c.op in ("Ge", "Le", "Gt", "Lt")
-          and "submitted_voting_power" in c.a + c.b and "total_voting_power" in c.a + c.b]
+    ge = rel(body, "Ge", r"^submitted_voting_power$", r"total_voting_power")
     if not ge:
         rep.fail("O1", "threshold-compare", "comparison of submitted power with the threshold "
                  "not found", body.describe())
         return
     c = ge[0]
-    thr = c.b if c.a == "submitted_voting_power" else c.a
+    thr = c.b
     norm = thr.replace("<Continue>.0", "")
     want = "checked_add(checked_div(checked_mul(total_voting_power,const(2)),const(3)),const(1))"
     rep.check(norm == want, "O1", "threshold=total*2/3+1",
               f"threshold is `{norm[:120]}`, expected {want}", f"{body.file}:{c.line}", detail=norm)
-    accept = (c.op == "Ge" and c.a == "submitted_voting_power") or \
-             (c.op == "Le" and c.b == "submitted_voting_power")
-    rep.check(accept and on_all_success_paths(body, via_edges=c.true_edges), "O1",
+    rep.check(on_all_success_paths(body, via_edges=c.true_edges), "O1",
               "accept<=submitted>=required",
               "validation can succeed without `submitted >= required` holding (comparison "
               "missing, inverted or bypassed)", f"{body.file}:{c.line}")
